@@ -8,7 +8,30 @@ import (
 )
 
 type Locker = sync.Locker
-type Pool = sync.Pool
+// Pool is a deterministic model of sync.Pool: Get hands out the most recently Put object (the behaviour that
+// makes use-after-Put bugs visible), else New(). Only one sim thread runs at a time, so no locking is needed.
+type Pool struct {
+	New   func() any
+	items []any
+}
+
+func (p *Pool) Get() any {
+	if n := len(p.items); n > 0 {
+		x := p.items[n-1]
+		p.items = p.items[:n-1]
+		return x
+	}
+	if p.New != nil {
+		return p.New()
+	}
+	return nil
+}
+
+func (p *Pool) Put(x any) {
+	if x != nil {
+		p.items = append(p.items, x)
+	}
+}
 
 type Mutex struct{ m simrt.Mutex }
 
